@@ -84,7 +84,7 @@ pub enum Ev {
     Connect { actor: Actor, ep: EpId, peer: SocketAddr },
     Close { actor: Actor, ep: EpId, addr: SocketAddr },
     Send { actor: Actor, ep: EpId, src: SocketAddr, dst: SocketAddr, data: Arc<[u8]>, fate: Fate, dgram: u64 },
-    SendErr { actor: Actor, ep: EpId, kind: io::ErrorKind },
+    SendErr { actor: Actor, ep: EpId, kind: io::ErrorKind, data: Arc<[u8]>, dst: Option<SocketAddr> },
     Deliver { dgram: u64, ep: EpId, dst: SocketAddr, src: SocketAddr, data: Arc<[u8]>, to_peer: Option<usize> },
     Lost { dgram: u64, why: &'static str },
     RecvCall { task: TaskId, ep: EpId },
@@ -577,23 +577,24 @@ impl Inner {
             return Err(io::Error::new(io::ErrorKind::NotConnected, "socket closed"));
         }
         if let Some(k) = self.eps[ep].pending_err.take() {
-            self.emit(Ev::SendErr { actor, ep, kind: k });
+            let dst = to.or(self.eps[ep].connected);
+            self.emit(Ev::SendErr { actor, ep, kind: k, data: Arc::from(data), dst });
             return Err(io::Error::new(k, "pending socket error"));
         }
         let dst = match to.or(self.eps[ep].connected) {
             Some(d) => d,
             None => {
-                self.emit(Ev::SendErr { actor, ep, kind: io::ErrorKind::NotConnected });
+                self.emit(Ev::SendErr { actor, ep, kind: io::ErrorKind::NotConnected, data: Arc::from(data), dst: None });
                 return Err(io::Error::new(io::ErrorKind::NotConnected, "destination address required"));
             }
         };
         if data.len() > 65507 {
-            self.emit(Ev::SendErr { actor, ep, kind: io::ErrorKind::InvalidInput });
+            self.emit(Ev::SendErr { actor, ep, kind: io::ErrorKind::InvalidInput, data: Arc::from(data), dst: to });
             return Err(io::Error::new(io::ErrorKind::InvalidInput, "message too long"));
         }
         let src = self.visible_src(ep);
         if src.is_ipv6() != dst.is_ipv6() {
-            self.emit(Ev::SendErr { actor, ep, kind: io::ErrorKind::InvalidInput });
+            self.emit(Ev::SendErr { actor, ep, kind: io::ErrorKind::InvalidInput, data: Arc::from(data), dst: to });
             return Err(io::Error::new(io::ErrorKind::InvalidInput, "address family mismatch"));
         }
         if rfc::is_data(data) {
@@ -850,7 +851,7 @@ pub fn fmt_ev(st: &Stamp, ev: &Ev) -> String {
         Ev::Send { actor, src, dst, data, fate, dgram, .. } => {
             format!("{} send d{dgram} {src} -> {dst} {} [{}]", fmt_actor(actor), rfc::summary(data), fate.tag())
         }
-        Ev::SendErr { actor, ep, kind } => format!("{} send on ep{ep} fails: {kind:?}", fmt_actor(actor)),
+        Ev::SendErr { actor, ep, kind, data, .. } => format!("{} send of {} on ep{ep} fails: {kind:?}", fmt_actor(actor), rfc::summary(data)),
         Ev::Deliver { dgram, dst, data, to_peer, .. } => match to_peer {
             Some(p) => format!("deliver d{dgram} to peer{p} {}", rfc::summary(data)),
             None => format!("deliver d{dgram} to {dst} {}", rfc::summary(data)),
